@@ -28,40 +28,67 @@ def obsInv (s : Refs) : List (Nat × Nat × Nat) :=
 def obs (sp : Space) : String :=
   s!"N={natList (obsNodes.filter fun n => sp.nodes.contains n)} F={showTriples (obsFwd sp.refs)} I={showTriples (obsInv sp.refs)}"
 
+/-! ### arm tags -/
+
+/-- aggregation closure of `n` by iteration (the universe has at most a dozen nodes) -/
+def closureOf (sp : Space) (n : Nat) : List Nat :=
+  let step := fun (acc : List Nat) =>
+    acc.foldl (fun a x => (aggregatesOf aggStd sp x).foldl (fun a c => if a.contains c then a else a ++ [c]) a) acc
+  (List.range 12).foldl (fun acc _ => step acc) [n]
+
+def deleteArms (sp : Space) (n : Nat) (dtr flag : Bool) : String :=
+  let cl := closureOf sp n
+  let kids := aggregatesOf aggStd sp n
+  let cyclic := cl.any fun x => (aggregatesOf aggStd sp x).any fun c => (closureOf sp c).contains x
+  let parentsOf := fun c => (cl.filter fun x => (aggregatesOf aggStd sp x).contains c).length
+  let shared := cl.any fun c => parentsOf c > 1
+  let shape := if cyclic then "cycle" else if shared then "shared" else if cl.length > 1 then "tree" else "leaf"
+  let selfCycle := kids.any fun c => (closureOf sp c).contains n
+  s!"delete-{shape}-dtr{boolStr dtr}" ++
+  (if sp.nodes.contains n then ",delete-node-existing" else ",delete-node-absent") ++
+  (if flag then ",delete-flag-1" else ",delete-flag-0") ++
+  (if kids.length = 0 then ",delete-children-0" else if kids.length = 1 then ",delete-children-1" else ",delete-children-many") ++
+  (if selfCycle then ",delete-on-cycle" else "") ++
+  (if cl.any (fun x => !sp.nodes.contains x) then ",delete-closure-has-absent-node" else "") ++
+  (if cl.length ≥ 4 then ",delete-closure-4plus" else "") ++
+  (if (sp.refs.inv.get n).isSome then ",delete-referenced" else ",delete-unreferenced") ++
+  (if kids.any (fun c => (kids.filter (· == c)).length > 1) then ",delete-child-twice" else "")
+
 def dstep (sp : Space) (toks : List String) : Space × String :=
   match toks with
   | ["reset"] => (emptySpace, "ok")
   | ["node", n] =>
     match n.toNat? with
-    | some n => let (sp', b) := insertNode sp n; (sp', s!"ok {boolStr b}")
+    | some n => let (sp', b) := insertNode sp n; (sp', s!"ok {boolStr b} @@ node-{boolStr b}")
     | none => (sp, "bad-op")
   | ["ref", a, b, t] =>
     match a.toNat?, b.toNat?, t.toNat? with
     | some a, some b, some t =>
       match insertRef sp.refs a b t with
-      | some r => ({ sp with refs := r }, "ok")
+      | some r => ({ sp with refs := r }, "ok @@ " ++ (if aggStd t then s!"ref-agg-{t}" else s!"ref-nonagg-{t}"))
       | none => (sp, "panic")
     | _, _, _ => (sp, "bad-op")
   | ["unref", a, b, t] =>
     match a.toNat?, b.toNat?, t.toNat? with
     | some a, some b, some t =>
       let (r, d) := deleteRef sp.refs a b t
-      ({ sp with refs := r }, s!"ok {boolStr d}")
+      ({ sp with refs := r }, s!"ok {boolStr d} @@ unref-{boolStr d}")
     | _, _, _ => (sp, "bad-op")
   | ["delete", n, d] =>
     match n.toNat?, parseBool? d with
     | some n, some d =>
       match delete aggStd sp n d with
-      | some (sp', b) => (sp', s!"ok {boolStr b} " ++ obs sp')
+      | some (sp', b) => (sp', s!"ok {boolStr b} " ++ obs sp' ++ " @@ " ++ deleteArms sp n d b)
       | none => (sp, "abort")
     | _, _ => (sp, "bad-op")
   | ["exists", n] =>
     match n.toNat? with
-    | some n => (sp, s!"ok {boolStr (sp.nodes.contains n)}")
+    | some n => (sp, s!"ok {boolStr (sp.nodes.contains n)} @@ exists-{boolStr (sp.nodes.contains n)}")
     | none => (sp, "bad-op")
   | ["aggs", n] =>
     match n.toNat? with
-    | some n => (sp, "ok " ++ natList ((aggregatesOf aggStd sp n).mergeSort (fun a b => a ≤ b)))
+    | some n => (sp, "ok " ++ natList ((aggregatesOf aggStd sp n).mergeSort (fun a b => a ≤ b)) ++
+        (if (aggregatesOf aggStd sp n).isEmpty then " @@ aggs-empty" else " @@ aggs-some"))
     | none => (sp, "bad-op")
   | ["obs"] => (sp, "ok " ++ obs sp)
   | _ => (sp, "bad-op")
